@@ -5,5 +5,6 @@ CONSTANTS Alphabet = {0, 1, 2, 255}
  MaxLen = 6
  Sids = {}
  Emit = FALSE
+ Prune = TRUE
  ValDepth = 3
 INVARIANTS BytesGood ValuesGood
